@@ -27,11 +27,6 @@ func (vc *VC) byteMem() *SVar { return vc.memMap(types.Typ[types.Byte]) }
 func (vc *VC) bstrOf(env Env, s string) string {
 	vc.declareFun("bs_", []string{"(Array Int Int)", "Int", "Int"}, "Int")
 	vc.declareFun("blen_", []string{"Int"}, "Int")
-	if !vc.declared["bs-len-axiom"] {
-		// the content identity of a window determines its length
-		vc.declared["bs-len-axiom"] = true
-		vc.addAxiom("(forall ((r (Array Int Int)) (o Int) (l Int)) (! (=> (<= 0 l) (= (blen_ (bs_ r o l)) l)) :pattern ((bs_ r o l))))")
-	}
 	m := vc.byteMem()
 	return app("bs_", app("select", vc.cur(env, m.Name), app("s.arr", s)), app("s.off", s), app("s.len", s))
 }
